@@ -865,9 +865,16 @@ impl Heap {
         let align_offset = pstr_sentinel_length(s_len);
         let copy_size = s_len + align_offset;
 
+        // when the sentinel is a single byte, a further cell of zeroes follows the copy
+        let write_size = if align_offset == 1 {
+            copy_size + heap_index!(1)
+        } else {
+            copy_size
+        };
+
         loop {
             unsafe {
-                if self.free_space() >= copy_size {
+                if self.free_space() >= write_size {
                     let slice =
                         std::slice::from_raw_parts_mut(self.inner.ptr, self.inner.byte_len + s_len);
 
